@@ -61,6 +61,8 @@ Proof.
     destruct l as [|[|l]]; cbn in Hl; try discriminate Hl; [|destruct l; discriminate Hl]. injection Hl as Hl. subst w.
     (* only block 11 of the encoded vector passes the hash test of the entry of disk 0 *)
     destruct i as [|[|i]]; [reflexivity | vm_compute in Hb; discriminate Hb | destruct i; vm_compute in Hb; discriminate Hb].
+  - intros i e He Hb. vm_compute in He. destruct He as [He|[]]. subst e.
+    destruct i as [|[|i]]; [reflexivity | vm_compute in Hb; discriminate Hb | destruct i; vm_compute in Hb; discriminate Hb].
   - intros e b He Hs. vm_compute in He. destruct He as [He|[]]. subst e. vm_compute in Hs. discriminate Hs.
   - vm_compute. lia.
   - cbn. lia.
